@@ -241,10 +241,13 @@ def check(ctx: Ctx) -> None:
                           'repetitions of that variation are not durably saved' % getattr(node, 'lineno', '?'),
                           fn.path, getattr(node, 'lineno', fn.lineno), operand='final-save')
     _check_load_guard(ctx)
+    _check_stamp_before_save(ctx)
     _check_cleanup(ctx)
     _check_order_insensitive_compare(ctx)
     from ..idioms import check_exact_matching
     check_exact_matching(ctx, 'C07.g', [PAR], floor=20)
+    from ..idioms import check_no_mutation_while_iterating
+    check_no_mutation_while_iterating(ctx, 'C07.h', [RUNNER, RES], floor=8)
 
 
 class _Guard(PathInterp):
@@ -298,6 +301,55 @@ class _Guard(PathInterp):
 
     def on_raise(self, s, st):
         self.holder.setdefault('raises', []).append((s, st))
+
+
+class _Stamp(PathInterp):
+    """state: frozenset; 'stamped' once `<results>.current_rep = <current_rep argument>` ran on the path"""
+
+    def __init__(self, fn, h, res_name, rep_name):
+        super().__init__(fn, h)
+        self.res, self.rep = res_name, rep_name
+        self.saves: List = []
+
+    def join(self, a, b):
+        return a & b if isinstance(a, frozenset) else a
+
+    def on_assign(self, s, st):
+        if isinstance(s, ast.Assign):
+            for t in s.targets:
+                if isinstance(t, ast.Attribute) and t.attr == 'current_rep' and norm(t.value) == self.res:
+                    return (st | {'stamped'}) if norm(s.value) == self.rep else (st - {'stamped'})
+        return st
+
+    def may_raise(self, c, st):
+        if isinstance(c.func, ast.Attribute) and c.func.attr == 'save_to_file' and norm(c.func.value) == self.res:
+            self.saves.append((c, st))
+            return ['OSError']
+        return []
+
+
+def _check_stamp_before_save(ctx: Ctx) -> None:
+    """C07.i: what is written to the partial-results file carries the number of repetitions it contains."""
+    M = ctx.model
+    ctx.rule('C07.i', 'every save of partial results is preceded, on every path, by the store of the current repetition count into the very '
+                      'object that is saved (the restart continues from that count: a stale count merges repetitions twice)', floor=1)
+    fn = M.func(RUNNER, 'SimulationResultsSaver.save_partial_results')
+    ps = [p_ for p_ in fn.params if p_ != 'self']
+    res = [p_ for p_ in ps if 'result' in p_]
+    rep = [p_ for p_ in ps if 'rep' in p_]
+    if len(res) != 1 or len(rep) != 1:
+        ctx.error('C07.i: save_partial_results no longer takes one repetition count and one results object (cannot tell)')
+    g = _Stamp(fn, ExcHierarchy(M), res[0], rep[0])
+    g.run(frozenset())
+    ctx.instance('C07.i', fn.qualname)
+    if not g.saves:
+        ctx.error('C07.i: no save_to_file call on the results object found in save_partial_results (cannot tell)')
+    bad = [c for c, st in g.saves if 'stamped' not in st]
+    ctx.obligation('C07.i', fn.qualname, not bad, {'saves': len(g.saves), 'saves_reachable_without_the_count': [c.lineno for c in bad]})
+    if bad:
+        ctx.violation('C07.i', fn.qualname, '`%s` can be reached without `%s.current_rep = %s` having run on that path: the file then '
+                      'holds the merged repetitions of this save with the repetition count of an earlier one, and a restart repeats (and merges '
+                      'again) work that is already in the file' % (norm(bad[0])[:50], res[0], rep[0]), fn.path, bad[0].lineno, operand='stale-count')
 
 
 def _check_load_guard(ctx: Ctx) -> None:
